@@ -174,8 +174,8 @@ def _gen_call(rng, n_dec=40):
 def gen_case(run_seed: int, index: int, tier: str) -> dict:
     rng = core.rng_for(run_seed)
     kind = rng.choices(
-        ["parallel", "sequential", "configurable", "deepjscc", "channelcode", "branching", "feedback", "mac", "wynerziv"],
-        weights=[46, 8, 8, 3, 3, 12, 8, 8, 4],
+        ["parallel", "sequential", "configurable", "deepjscc", "channelcode", "branching", "feedback", "mac", "wynerziv", "nested"],
+        weights=[46, 8, 8, 3, 3, 12, 8, 8, 4, 7],
     )[0]
     case = {"kind": kind, "ops": []}
     if kind == "parallel":
@@ -272,6 +272,24 @@ def gen_case(run_seed: int, index: int, tier: str) -> dict:
         for _ in range(rng.choice([1, 2])):
             call = _gen_call(rng, 0)
             call["inputs"] = [[rng.randrange(-50, 50) for _ in range(case["shape"][0] * case["shape"][1])] for _ in range(n)]
+            case["ops"].append(["forward", call])
+    elif kind == "nested":
+        # one ParallelModel object shared by several branches of an outer ParallelModel (weight sharing): a single outer
+        # forward makes several forwards of the shared object overlap in time
+        ni = rng.choice([1, 2, 2, 3, 3, 4])
+        case["inner"] = [f"i{j}" for j in range(ni)]
+        rng.shuffle(case["inner"])
+        case["inner_workers"] = rng.choice([None, 1, 2, ni, ni + 2])
+        case["inner_aggregator"] = rng.random() < 0.5
+        no = rng.choice([2, 2, 3, 3, 4])
+        case["outer"] = [f"o{j}" for j in range(no)]
+        case["outer_workers"] = rng.choice([None, None, 1, 2, no, no + 1])
+        case["outer_aggregator"] = rng.random() < 0.4
+        case["direct"] = rng.choice(case["outer"]) if rng.random() < 0.3 else None  # this branch IS the shared object (no wrapper)
+        case["private"] = [nm for nm in case["outer"] if nm != case["direct"] and rng.random() < 0.2]  # branches with their own inner copy
+        for _ in range(rng.choice([1, 1, 2])):
+            call = _gen_call(rng, 160)
+            call["args"], call["kwargs"] = [], {}
             case["ops"].append(["forward", call])
     elif kind == "wynerziv":
         case["quantizer"] = rng.random() < 0.5
@@ -551,6 +569,72 @@ def run_parallel(ctx: Ctx):
                         if k not in names:
                             ctx.violate("foreign_name", f"result dict has key {k!r} which is not a declared branch {names}")
                             break
+
+
+def _pure_agg(results):
+    return ("agg", tuple(results))
+
+
+def run_nested(ctx: Ctx):
+    case = ctx.case
+    tr = ctx.trace
+
+    def mk_inner():
+        return ParallelModel(max_workers=case["inner_workers"], steps=[(nm, RecModel(nm, tr)) for nm in case["inner"]], aggregator=_pure_agg if case["inner_aggregator"] else None)
+
+    shared = mk_inner()
+    steps = []
+    for nm in case["outer"]:
+        if nm == case.get("direct"):
+            steps.append((nm, shared))
+        else:
+            steps.append((nm, SequentialModel([RecModel("t" + nm, tr), mk_inner() if nm in case.get("private", []) else shared])))
+    outer = ParallelModel(max_workers=case["outer_workers"], steps=steps, aggregator=_pure_agg if case["outer_aggregator"] else None)
+
+    def inner_expected(v):
+        vals = [(nm, v) for nm in case["inner"]]
+        return _pure_agg(vals) if case["inner_aggregator"] else dict(zip(case["inner"], vals))
+
+    for op in case["ops"]:
+        call = op[1]
+        x0 = ("in", call["input"])
+        sim = schedsim.Sim(schedsim.Decider(call["decisions"]), ctx.log)
+        with schedsim.installed(sim, [kparallel]):
+            out = outer(x0)
+        trace = ctx.take_trace()
+        ctx.log.add("op.forward", {"in": x0, "out": out})
+        ctx.res.probes["nested.forward"] += 1
+        ctx.res.probes["seam.submit"] += sim.submits
+        n_shared = sum(1 for nm in case["outer"] if nm not in case.get("private", []))
+        if sim.nested_starts:
+            ctx.res.faults["sched.task_started_inside_another_tasks_wait"] += sim.nested_starts
+        # did two forwards of the shared object overlap?  (an outer task started inside another outer task's wait)
+        starts = [e for e in ctx.log.events if e[1] in ("sched.start", "sched.finish")]
+        if sim.nested_starts and n_shared >= 2:
+            ctx.res.faults["sched.overlapping_forwards_of_one_object"] += 1
+            ctx.res.nontrivial.append(core.short_hash(["nested", case["inner"], case["outer"], case["inner_workers"], case["outer_workers"], [e[1:] for e in starts]]))
+        ctx.res.extra_sets.setdefault("schedules", []).append(core.short_hash(["nested", len(case["inner"]), len(case["outer"]), [e[1:] for e in starts]]))
+        # ---- oracle
+        inputs = {nm: (x0 if nm == case.get("direct") else ("t" + nm, x0)) for nm in case["outer"]}
+        exp_trace = Counter()
+        for nm in case["outer"]:
+            if nm != case.get("direct"):
+                exp_trace[("t" + nm, repr(x0))] += 1
+            for b in case["inner"]:
+                exp_trace[(b, repr(inputs[nm]))] += 1
+        got_trace = Counter((t[0], repr(t[1])) for t in trace)
+        if got_trace != exp_trace:
+            diff = (got_trace - exp_trace) + (exp_trace - got_trace)
+            ctx.violate("count", f"stages of the nested model ran {sum(got_trace.values())} times, expected {sum(exp_trace.values())}; differing entries {dict(diff)}")
+            continue
+        exp_vals = [inner_expected(inputs[nm]) for nm in case["outer"]]
+        expected = _pure_agg(exp_vals) if case["outer_aggregator"] else dict(zip(case["outer"], exp_vals))
+        if not teq(out, expected):
+            if isinstance(out, dict) and isinstance(expected, dict) and list(out) == list(expected):
+                bad = [nm for nm in expected if not teq(out[nm], expected[nm])]
+                ctx.violate("foreign_value", f"result under {bad[0]!r} is {out[bad[0]]!r}, expected that branch's own output {expected[bad[0]]!r} (a shared ParallelModel ran in {n_shared} branches; {sim.nested_starts} task(s) started while another waited)")
+            else:
+                ctx.violate("result", f"nested model returned {out!r}, expected {expected!r}")
 
 
 def run_branching(ctx: Ctx):
@@ -863,7 +947,7 @@ def run_wynerziv(ctx: Ctx):
 RUNNERS = {
     "parallel": run_parallel, "sequential": run_sequential_family, "configurable": run_sequential_family,
     "deepjscc": run_sequential_family, "channelcode": run_sequential_family, "branching": run_branching,
-    "feedback": run_feedback, "mac": run_mac, "wynerziv": run_wynerziv,
+    "feedback": run_feedback, "mac": run_mac, "wynerziv": run_wynerziv, "nested": run_nested,
 }
 
 
@@ -893,7 +977,7 @@ def shrink_candidates(case: dict):
             c["ops"] = copy.deepcopy(cand_ops)
             yield c
     # fewer branches / stages
-    for key in ("branches", "stages"):
+    for key in ("branches", "stages", "inner", "outer"):
         if key in case and len(case[key]) > 1:
             for i in range(len(case[key])):
                 c = copy.deepcopy(case)
